@@ -87,7 +87,7 @@ func famSchnorrHonest(k *mon.Case) {
 		k.Failf("schnorr:Sign:not-deterministic", "d=%x msg=%x first %x second %v", d, msg, sb, again)
 	}
 	// round trips
-	sbuf := append([]byte{}, sb...)
+	sbuf := exact(sb)
 	ps, err := schnorr.ParseSignature(sbuf)
 	if err != nil || !bytes.Equal(ps.Serialize(), sb) || !ps.IsEqual(sig) {
 		k.Failf("schnorr:ParseSignature:roundtrip", "sig=%x err=%v", sb, err)
@@ -97,7 +97,7 @@ func famSchnorrHonest(k *mon.Case) {
 		k.Failf("aliasing:schnorr.ParseSignature:result-retains-caller-slice", "sig=%x", sb)
 	}
 	ser := schnorr.SerializePubKey(pub)
-	kbuf := append([]byte{}, ser...)
+	kbuf := exact(ser)
 	pp, err := schnorr.ParsePubKey(kbuf)
 	if !bytes.Equal(ser, pk32) || err != nil || pp.X().Cmp(refP.X) != 0 || pp.Y().Bit(0) != 0 {
 		k.Failf("schnorr:ParsePubKey:roundtrip", "pub=%x ser=%x err=%v", pk32, ser, err)
@@ -278,7 +278,7 @@ func famSchnorrBoundary(k *mon.Case) {
 
 	// parsers against their definitions
 	wantSigParse := len(sig) == 64 && refec.Int(sig[:32]).Cmp(refec.P) < 0 && refec.Int(sig[32:]).Cmp(refec.N) < 0
-	sigBuf, pkBuf := append([]byte{}, sig...), append([]byte{}, pk...)
+	sigBuf, pkBuf := exact(sig), exact(pk)
 	ps, err := schnorr.ParseSignature(sigBuf)
 	if !bytes.Equal(sigBuf, sig) {
 		k.Failf("aliasing:schnorr.ParseSignature:caller-input-modified:signature", "before=%x after=%x", sig, sigBuf)
